@@ -29,7 +29,7 @@ CLAIMS = {
             "The program-text enumeration is syntactic support, not the verdict; an impl whose T has no generator or an unexpected `unsafe` site is reported as uncovered and makes the check inconclusive (exit 2). Strings: lead bytes C2..DF/E1..EC/F1..F3 (E0, ED, F0, F4 special cases outside the bound). Serde restoration is under C16; dictionary tables with entries only at byte level (C07).", "3 C04"),
     "C05": ("Index containers vs a model array: Stride acceptance rule (documented pattern evaluated without wrap-around), state untouched on reject, len/is_empty/index/iter for Stride, IndexList, IndexOptimized, Vec<usize> over unconstrained 64-bit values, with clear; thorough adds one-step obligations from any valid Striding/Saturated state (covers histories of any length) and longer sequences.",
             "Sequences of 2-3 (thorough 4-5) pushes; IndexOptimized additionally from concrete mode prefixes. Path-wise CBMC exploration (--paths lifo) is raced with the merged formula for the heap-shape-symbolic containers.", "3 C05"),
-    "C06": ("The bit-level kernels underneath the Huffman container, on the real private code through verif-hooks: BitIterator::next one step at every alignment (3 symbolic bytes, any cursor), Decoder end-of-item on empty / Symbol-root / Further-root tables, Decoder::next one step from an arbitrary mid-stream state (1-bit codes; thorough 2-bit), push_symbols + Encoder with a one-entry code of symbolic length and code word from a symbolic pre-state (range, byte length, earlier bits unchanged, new bits), refusal of unknown symbols.",
+    "C06": ("The bit-level kernels underneath the Huffman container, on the real private code through verif-hooks: BitIterator::next one step at every alignment (3 symbolic bytes, any cursor), Decoder end-of-item on empty / Symbol-root / Further-root tables (the >= 512 symbol case), one real insert_decode into a void table, Decoder::next one step from an arbitrary mid-stream state (uniform 1- and 2-bit codes; thorough 3-bit and a nested 9-bit table built by the real insert_decode), push_symbols + Encoder with a one-entry code of symbolic length and code word from a symbolic pre-state (range, byte length, earlier bits unchanged, new bits), refusal of unknown symbols.",
             "NOT decided (cannot be encoded: every path inserts into B-trees, measured time-outs in DESIGN.md 1.2): HuffmanContainer::push/merge_regions, create_from, code optimality, >= 1 bit per symbol, the single-symbol alphabet, raw mode, multi-symbol alphabets in the encoder. One-step obligations rely on the stated state invariants.", "3 C06"),
     "C07": ("One push/read step from every valid single-entry dictionary state (entry bytes, tag in {0,1,2}, pushed bytes all symbolic; lengths 0..3): exact bytes back or refusal, an entry costs exactly one byte; append-only across coded and literal items; clear; generation 0 through the public API incl. the empty string; MisraGries in isolation (thorough).",
             "NOT decided: DictionaryCodec::new_from (choice of heavy hitters/tags), generations of merges, > 1024 distinct strings, several dictionary entries at once (B-tree inserts cannot be encoded).", "3 C07"),
